@@ -145,7 +145,8 @@ def run(ctx: Ctx):
         A13 = util.AV(ctx)
         n0 = len(A13.call_log)
         A13.returned(f)
-        tcs = [val for fn_, node_, val in A13.call_log[n0:] if fn_ is not None and fn_.qualname == f.qualname and val[0] == "mcall" and val[2] == "method" and val[1] == ("sym", "self.template")]
+        # calls made while this method is evaluated - in its own frame or in a helper of the class it delegates to
+        tcs = [val for fn_, node_, val in A13.call_log[n0:] if fn_ is not None and val[0] == "mcall" and val[2] == "method" and val[1] == ("sym", "self.template")]
         if not tcs:
             tcs = [val for fn_, node_, val in A13.call_log if fn_ is not None and fn_.qualname == f.qualname and val[0] == "mcall" and val[2] == "method" and val[1] == ("sym", "self.template")]
         if not tcs:
